@@ -23,7 +23,7 @@ REQUIRED_COUNTERS = ["chunked_runs", "extra_state_threaded", "cuts", "clipped_la
 
 def cases(tier, seed):
     out = []
-    reps = 1 if tier == "quick" else 8
+    reps = 1 if tier == "quick" else 24
     for ci, cell in enumerate(zoo.matrix()):
         for r in range(reps):
             sfx = "" if r == 0 else f"-{r}"
